@@ -156,15 +156,44 @@ def run(ctx, replay=None):
                                     {'int': vi[:5], 'float': vf[:5]}, {'what': 'int-vs-float-range', 'model': name})
                 except Exception as e:
                     ctx.problem('oracle', 'model raises for an integer-typed range: %s' % type(e).__name__, dict(case, r_int=ri), None, {'what': 'raises', 'model': name})
+            # other lag containers: a pandas Series whose index is not 0..n-1 (sorted / filtered lag column), a tuple
+            try:
+                import pandas as pd
+                lagv = [4.0, 0.5, 9.0, 2.0, 0.0]
+                args_ = ([float(r), float(c0)] + ([float(s)] if name in ('stable', 'matern') else []) + [float(b)])
+                want_ = np.array([float(f(h_, *args_)) for h_ in lagv])
+                for label, cont in (('series-shuffled-index', pd.Series(lagv, index=[3, 0, 4, 1, 2])), ('series-filtered', pd.Series([7.0] + lagv, index=range(10, 16))[1:]), ('tuple', tuple(lagv))):
+                    got_ = np.asarray(f(cont, *args_), float)
+                    if got_.shape != want_.shape or not all(gen.close(a_, b_, 1e-12, 1e-12) for a_, b_ in zip(got_, want_)):
+                        ctx.problem('oracle', 'model called on a %s of lags differs from the element-wise calls in positional order' % label, dict(case, container=label),
+                                    {'container_call': got_.tolist(), 'elementwise': want_.tolist()}, {'what': 'lag-container', 'model': name})
+                        break
+            except ImportError:
+                ctx.count('pandas_missing')
+            except Exception as e:
+                ctx.problem('oracle', 'model raises on a lag container: %s %s' % (type(e).__name__, str(e)[:60]), case, None, {'what': 'lag-container-raises', 'model': name})
+            # integer-typed sill / shape / nugget (plain Python ints) on lag arrays that start at lag 0 and elsewhere
+            try:
+                ipar = [7.5, 3] + ([2] if name in ('stable', 'matern') else []) + [rng.choice([0, 1])]
+                for harr in ([0.0, 1.0, 2.0, 5.5], [1.0, 0.0, 2.0], np.array([0, 1, 2, 6])):
+                    va = np.asarray(f(harr, *ipar), float)
+                    vs = np.array([float(f(float(h_), *[float(p_) for p_ in ipar])) for h_ in np.asarray(harr, float)])
+                    if va.shape != vs.shape or not all(gen.close(a_, b_, 1e-12, 1e-12) for a_, b_ in zip(va, vs)):
+                        ctx.problem('oracle', 'model called on a lag array with integer-typed parameters differs from the element-wise float calls', dict(case, int_params=ipar, lags=np.asarray(harr).tolist()),
+                                    {'array_call': va.tolist(), 'scalar_calls': vs.tolist()}, {'what': 'int-params-array', 'model': name})
+                        break
+            except Exception as e:
+                ctx.count('int_params_rejected', name + ':' + type(e).__name__)
             # integer-typed lag arrays (pixel distances): same values as the float lags, for every model and dtype
-            for dt_ in ('uint8', 'uint16', 'uint32', 'int32', 'int64'):
-                hi_ = np.array([0, 1, 2, 5, 17, 200], dtype=dt_)
+            for dt_ in ('uint8', 'uint16', 'uint32', 'int32', 'int64', 'float32', 'float16'):
+                hi_ = np.array([0, 1, 2, 5, 17, 200], dtype=dt_)          # exactly representable in every one of these types
                 try:
                     args_ = ([float(r), float(c0)] + ([float(s)] if name in ('stable', 'matern') else []) + [float(b)])
                     vi = np.asarray(f(hi_, *args_), float)
                     vf = np.asarray(f(hi_.astype(float), *args_), float)
-                    if vi.shape != vf.shape or not all(gen.close(a_, b_, 1e-12, 1e-12) for a_, b_ in zip(vi, vf)):
-                        ctx.problem('oracle', 'model evaluated on an integer-typed lag array (%s) differs from the same lags as floats' % hi_.dtype, dict(case, lag_dtype=str(hi_.dtype)),
+                    tol_ = (1e-12, 1e-12) if hi_.dtype.kind in 'iu' else (1e-9, 1e-9 * (abs(float(b)) + float(c0)))      # floating-point lag types: the compiled function may keep single-precision intermediates at the 1e-11 level
+                    if vi.shape != vf.shape or not all(gen.close(a_, b_, *tol_) for a_, b_ in zip(vi, vf)):
+                        ctx.problem('oracle', 'model evaluated on a lag array of type %s differs from the same lags as float64' % hi_.dtype, dict(case, lag_dtype=str(hi_.dtype)),
                                     {'int': vi.tolist(), 'float': vf.tolist()}, {'what': 'int-vs-float-lags', 'model': name})
                 except Exception as e:
                     ctx.count('int_lags_rejected', name + ':' + type(e).__name__)
@@ -215,7 +244,7 @@ def run(ctx, replay=None):
             ctx.case_done(case, True)
         # ---------- a sum-model function keeps denoting its own sum after other sums were set on the same instance
         try:
-            Vs = Variogram(c, v, model='spherical+gaussian', n_lags=8)
+            Vs = Variogram(c, v, model='spherical+gaussian', n_lags=8, fit_method=None)      # no fit needed: only the model functions are used
             kept = []
             for nm in ['spherical+stable', 'stable+spherical', 'exponential+gaussian+spherical', 'cubic+exponential', 'matern+spherical']:
                 Vs.set_model(nm)
